@@ -18,6 +18,20 @@ theorem valid_of_core {a b : Token} (h : a.core = b.core) : a.valid C = b.valid 
   simp only [Token.core, Prod.mk.injEq] at h
   simp [Token.valid, Token.plain, h.1, h.2.1, h.2.2]
 
+theorem ok_of_core {a b : Token} (h : a.core = b.core) : a.ok C g = b.ok C g := by
+  have hv := valid_of_core C h
+  simp only [Token.core, Prod.mk.injEq] at h
+  simp [Token.ok, Token.sized, h.1, h.2.1, hv]
+
+theorem ok_mk {t : Token} (hs : t.sized g = true) (hv : t.valid C = true) : t.ok C g = true := by
+  simp [Token.ok, hs, hv]
+
+theorem ok_sized {t : Token} (h : t.ok C g = true) : t.sized g = true := by
+  simp only [Token.ok, Bool.and_eq_true] at h; exact h.1
+
+theorem ok_valid {t : Token} (h : t.ok C g = true) : t.valid C = true := by
+  simp only [Token.ok, Bool.and_eq_true] at h; exact h.2
+
 theorem prev_of_core {a b : Token} (h : a.core = b.core) : a.prev = b.prev := by
   simp only [Token.core, Prod.mk.injEq] at h
   exact h.1
@@ -165,8 +179,8 @@ theorem kids_others_length (unc : List Token) (h : Bytes) :
 def Off (seen : List Token) (t : Token) : Prop := ∃ o ∈ seen, o.core = t.core
 
 inductive InTree (C : Crypto) (g : Bytes) (seen : List Token) : Token → Prop
-  | root (t : Token) : Off seen t → t.valid C = true → t.prev = g → InTree C g seen t
-  | child (t p : Token) : Off seen t → t.valid C = true → InTree C g seen p → p.id C = t.prev →
+  | root (t : Token) : Off seen t → t.ok C g = true → t.prev = g → InTree C g seen t
+  | child (t p : Token) : Off seen t → t.ok C g = true → InTree C g seen p → p.id C = t.prev →
       InTree C g seen t
 
 variable {C g}
@@ -190,15 +204,18 @@ theorem InTree.mono {a b : List Token} (h : ∀ t, t ∈ a → t ∈ b) {t : Tok
 theorem InTree.off {seen : List Token} {t : Token} (h : InTree C g seen t) : Off seen t := by
   cases h <;> assumption
 
-theorem InTree.valid {seen : List Token} {t : Token} (h : InTree C g seen t) : t.valid C = true := by
+theorem InTree.ok {seen : List Token} {t : Token} (h : InTree C g seen t) : t.ok C g = true := by
   cases h <;> assumption
+
+theorem InTree.valid {seen : List Token} {t : Token} (h : InTree C g seen t) : t.valid C = true :=
+  ok_valid C g h.ok
 
 theorem InTree.of_core {seen : List Token} {a b : Token} (h : a.core = b.core) (ha : InTree C g seen a) :
     InTree C g seen b := by
   cases ha with
-  | root _ hm hv hp => exact .root b (hm.of_core h) (valid_of_core C h ▸ hv) (prev_of_core h ▸ hp)
+  | root _ hm hv hp => exact .root b (hm.of_core h) (ok_of_core C g h ▸ hv) (prev_of_core h ▸ hp)
   | child _ p hm hv hp hid =>
-    exact .child b p (hm.of_core h) (valid_of_core C h ▸ hv) hp (prev_of_core h ▸ hid)
+    exact .child b p (hm.of_core h) (ok_of_core C g h ▸ hv) hp (prev_of_core h ▸ hid)
 
 theorem InTree.perm {a b : List Token} (h : a.Perm b) (t : Token) : InTree C g a t ↔ InTree C g b t :=
   ⟨fun x => x.mono (fun _ hx => h.mem_iff.mp hx), fun x => x.mono (fun _ hx => h.mem_iff.mpr hx)⟩
@@ -207,7 +224,7 @@ theorem InTree.perm {a b : List Token} (h : a.Perm b) (t : Token) : InTree C g a
 
 inductive Chained (C : Crypto) (g : Bytes) : List Token → Prop
   | nil : Chained C g []
-  | snoc (els : List Token) (r : Token) : Chained C g els → r.valid C = true →
+  | snoc (els : List Token) (r : Token) : Chained C g els → r.ok C g = true →
       (r.prev = g ∨ hasId C els r.prev = true) → hasId C els (r.id C) = false → Chained C g (els ++ [r])
 
 theorem Chained.map_core {els : List Token} (h : Chained C g els) (f : Token → Token)
@@ -217,12 +234,12 @@ theorem Chained.map_core {els : List Token} (h : Chained C g els) (f : Token →
   | snoc els r _ hv hp hn ih =>
     rw [List.map_append, List.map_cons, List.map_nil]
     refine .snoc _ _ ih ?_ ?_ ?_
-    · rw [valid_of_core C (hf r)]; exact hv
+    · rw [ok_of_core C g (hf r)]; exact hv
     · rw [prev_of_core (hf r), hasId_map_core C f hf]; exact hp
     · rw [id_of_core C (hf r), hasId_map_core C f hf]; exact hn
 
 theorem Chained.closed {els : List Token} (h : Chained C g els) :
-    ∀ e ∈ els, e.valid C = true ∧ (e.prev = g ∨ hasId C els e.prev = true) := by
+    ∀ e ∈ els, e.ok C g = true ∧ (e.prev = g ∨ hasId C els e.prev = true) := by
   induction h with
   | nil => intro e he; cases he
   | snoc els r _ hv hp _ ih =>
@@ -250,11 +267,11 @@ def Room (els unc stack : List Token) : Prop :=
 structure Inv (nodrop : Prop) (seen els unc stack : List Token) : Prop where
   sound : ∀ e ∈ els, InTree C g seen e
   chained : Chained C g els
-  uncOk : ∀ u ∈ unc, Off seen u ∧ u.valid C = true ∧ u.prev ≠ g ∧ hasId C els u.prev = false
+  uncOk : ∀ u ∈ unc, Off seen u ∧ u.ok C g = true ∧ u.prev ≠ g ∧ hasId C els u.prev = false
   stackOk : ∀ r ∈ stack, Off seen r
   room : nodrop → Room C g cap els unc stack
   inj : nodrop → ∀ a ∈ seen, ∀ b ∈ seen, a.id C = b.id C → a.core = b.core
-  kept : nodrop → ∀ t ∈ seen, t.valid C = true →
+  kept : nodrop → ∀ t ∈ seen, t.ok C g = true →
     hasId C els (t.id C) = true ∨ (∃ u ∈ unc, u.core = t.core) ∨ (∃ r ∈ stack, r.core = t.core)
 
 
@@ -292,7 +309,7 @@ theorem drain_inv (nodrop : Prop) (seen els unc stack : List Token)
   | case1 els unc => exact I
   | case2 els unc r rest hv ih =>
     apply ih
-    have hv' : r.valid C = false := by simpa using hv
+    have hv' : r.ok C g = false := by simpa using hv
     refine ⟨I.sound, I.chained, I.uncOk, fun x hx => I.stackOk x (List.mem_cons_of_mem _ hx), ?_, I.inj, ?_⟩
     · intro hn; exact Or.inl (I.room hn).tail
     · intro hn t ht htv
@@ -300,11 +317,11 @@ theorem drain_inv (nodrop : Prop) (seen els unc stack : List Token)
       · exact Or.inl h
       · exact Or.inr (Or.inl h)
       · rcases List.mem_cons.mp hr' with rfl | h
-        · rw [valid_of_core C hc, htv] at hv'; cases hv'
+        · rw [ok_of_core C g hc, htv] at hv'; cases hv'
         · exact Or.inr (Or.inr ⟨r', h, hc⟩)
   | case3 els unc r rest hv ho ih =>
     apply ih
-    have hv' : r.valid C = true := by simpa using hv
+    have hv' : r.ok C g = true := by simpa using hv
     have ho' : r.prev ≠ g ∧ hasId C els r.prev = false := by simpa using ho
     have hkind : gatherKind C g ⟨els, unc⟩ r = .orphan := by
       simp [gatherKind, hv', ho'.1, ho'.2]
@@ -358,7 +375,7 @@ theorem drain_inv (nodrop : Prop) (seen els unc stack : List Token)
         · exact Or.inr (Or.inr ⟨r', h, hc⟩)
   | case5 els unc r rest hv ho hd ih =>
     apply ih
-    have hv' : r.valid C = true := by simpa using hv
+    have hv' : r.ok C g = true := by simpa using hv
     have hd' : hasId C els (r.id C) = false := by simpa using hd
     have hroff : Off seen r := I.stackOk r (List.mem_cons_self)
     have hpar : r.prev = g ∨ hasId C els r.prev = true := by
@@ -501,7 +518,7 @@ theorem inv_complete {seen els unc : List Token} (I : Inv C g cap True seen els 
   induction ht with
   | root t hoff hv hp =>
     obtain ⟨o, ho, hc⟩ := hoff
-    rcases I.kept trivial o ho (by rw [valid_of_core C hc]; exact hv) with k | ⟨u, hu, huc⟩ | ⟨r, hr, _⟩
+    rcases I.kept trivial o ho (by rw [ok_of_core C g hc]; exact hv) with k | ⟨u, hu, huc⟩ | ⟨r, hr, _⟩
     · rw [← id_of_core C hc]; exact k
     · have := (I.uncOk u hu).2.2.1
       rw [prev_of_core (huc.trans hc), hp] at this
@@ -509,7 +526,7 @@ theorem inv_complete {seen els unc : List Token} (I : Inv C g cap True seen els 
     · cases hr
   | child t p hoff hv _ hid ih =>
     obtain ⟨o, ho, hc⟩ := hoff
-    rcases I.kept trivial o ho (by rw [valid_of_core C hc]; exact hv) with k | ⟨u, hu, huc⟩ | ⟨r, hr, _⟩
+    rcases I.kept trivial o ho (by rw [ok_of_core C g hc]; exact hv) with k | ⟨u, hu, huc⟩ | ⟨r, hr, _⟩
     · rw [← id_of_core C hc]; exact k
     · have := (I.uncOk u hu).2.2.2
       rw [prev_of_core (huc.trans hc), ← hid, ih] at this
@@ -677,10 +694,10 @@ theorem walk_sound (els : List Token) : ∀ (n : Nat) (t : Token) (path : List T
             exact ⟨.step t p rest hv' hp hid h1, by simp; omega⟩
 
 theorem path_inTree {seen els : List Token} (hs : ∀ e ∈ els, InTree C g seen e) {t : Token} {path : List Token}
-    (hp : Path C g els t path) (hoff : Off seen t) : InTree C g seen t := by
+    (hp : Path C g els t path) (hoff : Off seen t) (hsz : t.sized g = true) : InTree C g seen t := by
   cases hp with
-  | root _ hv hg => exact .root t hoff hv hg
-  | step _ p rest hv hpm hid _ => exact .child t p hoff hv (hs p hpm) hid
+  | root _ hv hg => exact .root t hoff (ok_mk C g hsz hv) hg
+  | step _ p rest hv hpm hid _ => exact .child t p hoff (ok_mk C g hsz hv) (hs p hpm) hid
 
 theorem walk_budget_succ (els : List Token) : ∀ (n : Nat) (t : Token) (path : List Token),
     walk C g els n t = some path → walk C g els (n + 1) t = some path
@@ -776,7 +793,7 @@ theorem chained_walk {els : List Token} (h : Chained C g els) :
         rw [walk_els_snoc els r _ e path (walk_budget_le els (Nat.le_succ _) hw)]; rfl
     · have he' : e = r := by simpa using h1
       subst he'
-      have := walk_hanging (C := C) (g := g) ih hv hp
+      have := walk_hanging (C := C) (g := g) ih (ok_valid C g hv) hp
       cases hw : walk C g els (els.length + 1) e with
       | none => simp [hw] at this
       | some path => rw [walk_els_snoc els e _ e path hw]; rfl
@@ -842,7 +859,7 @@ theorem parse_serialize (els : List Token) (h : ∀ t ∈ els, WireOk C t) :
     rw [List.flatMap_cons, parse_cons t _ _ h1 h2 h3, ih (fun x hx => h x (List.mem_cons_of_mem _ hx))]
     rfl
 
-theorem drain_added_nil {els : List Token} {r : Token} (hv : r.valid C = true)
+theorem drain_added_nil {els : List Token} {r : Token} (hv : r.ok C g = true)
     (hp : r.prev = g ∨ hasId C els r.prev = true) (hd : hasId C els (r.id C) = false) :
     drain C g cap els [] [r] = ⟨els ++ [r], []⟩ := by
   have ho : (r.prev != g && !hasId C els r.prev) = false := by
@@ -853,7 +870,7 @@ theorem drain_added_nil {els : List Token} {r : Token} (hv : r.valid C = true)
   simp only [hv, ho, hd, Bool.not_true, Bool.false_eq_true, ↓reduceIte]
   simp [kidsOf, othersOf, drain_nil]
 
-theorem gatherKind_added {tr : Tree} {r : Token} (hv : r.valid C = true)
+theorem gatherKind_added {tr : Tree} {r : Token} (hv : r.ok C g = true)
     (hp : r.prev = g ∨ hasId C tr.els r.prev = true) (hd : hasId C tr.els (r.id C) = false) :
     gatherKind C g tr r = .added := by
   have ho : (r.prev != g && !hasId C tr.els r.prev) = false := by
@@ -891,7 +908,7 @@ theorem reload_chained {els : List Token} (h : Chained C g els) :
   | nil => rfl
   | snoc els r _ hv hp hd ih =>
     rw [List.map_append, gatherFlags_append, ih]
-    have hv' : r.strip.valid C = true := by rw [valid_of_core C r.strip_core]; exact hv
+    have hv' : r.strip.ok C g = true := by rw [ok_of_core C g r.strip_core]; exact hv
     have hp' : r.strip.prev = g ∨ hasId C (els.map Token.strip) r.strip.prev = true := by
       rw [hasId_map_core C _ Token.strip_core]; exact hp
     have hd' : hasId C (els.map Token.strip) (r.strip.id C) = false := by
@@ -961,20 +978,21 @@ theorem Path.subset {els : List Token} {t : Token} {path : List Token} (h : Path
     · exact ht
     · exact ih hp x h
 
-theorem Path.all_inTree {els : List Token} {t : Token} {path : List Token} (h : Path C g els t path) :
-    ∀ x ∈ path, InTree C g path x := by
+theorem Path.all_inTree {els : List Token} {t : Token} {path : List Token} (h : Path C g els t path)
+    (hsz : ∀ x ∈ path, x.sized g = true) : ∀ x ∈ path, InTree C g path x := by
   induction h with
   | root t hv hg =>
     intro x hx
     have : x = t := by simpa using hx
     subst this
-    exact .root x (Off.self (by simp)) hv hg
+    exact .root x (Off.self (by simp)) (ok_mk C g (hsz x (by simp)) hv) hg
   | step t p rest hv _ hid hp ih =>
     intro x hx
     have hsub : ∀ y, y ∈ rest → y ∈ t :: rest := fun y hy => List.mem_cons_of_mem _ hy
+    have ih' := ih (fun y hy => hsz y (hsub y hy))
     rcases List.mem_cons.mp hx with rfl | h
-    · exact .child x p (Off.self (by simp)) hv ((ih p hp.head_mem).mono hsub) hid
-    · exact (ih x h).mono hsub
+    · exact .child x p (Off.self (by simp)) (ok_mk C g (hsz x (by simp)) hv) ((ih' p hp.head_mem).mono hsub) hid
+    · exact (ih' x h).mono hsub
 
 theorem InTree.mono_off {a b : List Token} (h : ∀ t, Off a t → Off b t) {t : Token} (ht : InTree C g a t) :
     InTree C g b t := by
@@ -1063,7 +1081,7 @@ theorem gather_return (tr : Tree) (t : Token) :
     ((gatherKind C g tr t).isSome = false → (gather C g cap tr t).els = tr.els) := by
   unfold gather gatherKind
   rw [drain]
-  by_cases hv : (!t.valid C) = true
+  by_cases hv : (!t.ok C g) = true
   · simp [hv, drain_nil, Kind.isSome]
   · by_cases ho : (t.prev != g && !hasId C tr.els t.prev) = true
     · simp [hv, ho, drain_nil, Kind.isSome]
@@ -1108,12 +1126,12 @@ theorem gather_unc_le_waiter (tr : Tree) (t : Token) :
     (gather C g cap tr t).unc.length ≤ tr.unc.length + waiters C g [t] := by
   unfold gather
   rw [drain]
-  by_cases hv : (!t.valid C) = true
+  by_cases hv : (!t.ok C g) = true
   · rw [if_pos hv, drain_nil]; exact Nat.le_add_right _ _
   · rw [if_neg hv]
     by_cases ho : (t.prev != g && !hasId C tr.els t.prev) = true
     · rw [if_pos ho, drain_nil]
-      have hv' : t.valid C = true := by simpa using hv
+      have hv' : t.valid C = true := ok_valid C g (by simpa using hv)
       have hg : (t.prev != g) = true := by
         simp only [Bool.and_eq_true] at ho; exact ho.1
       have hw : waiters C g [t] = 1 := by simp [waiters, hv', hg]
@@ -1141,10 +1159,10 @@ theorem fits_of_waiters (tr : Tree) (ts : List Token) (h : tr.unc.length + waite
     refine ⟨fun hk => ?_, ih _ ?_⟩
     · have hw : waiters C g [t] = 1 := by
         unfold gatherKind at hk
-        by_cases hv : (!t.valid C) = true
+        by_cases hv : (!t.ok C g) = true
         · simp [hv] at hk
         · by_cases ho : (t.prev != g && !hasId C tr.els t.prev) = true
-          · have hv' : t.valid C = true := by simpa using hv
+          · have hv' : t.valid C = true := ok_valid C g (by simpa using hv)
             have hg : (t.prev != g) = true := by
               simp only [Bool.and_eq_true] at ho; exact ho.1
             simp [waiters, hv', hg]
@@ -1249,5 +1267,65 @@ theorem absorbOne_same_or_bound (t x : Token) : absorbOne C t x = x ∨ (absorbO
       · exact Or.inl rfl
     · exact Or.inl rfl
   · exact Or.inl rfl
+
+/-! ### pointers that are not digest sized are ignored; among sized tokens equal bytes are equal tokens -/
+
+theorem gather_unsized (tr : Tree) (t : Token) (h : t.sized g = false) : gather C g cap tr t = tr := by
+  unfold gather
+  rw [drain]
+  simp [Token.ok, h, drain_nil]
+
+theorem gatherAll_filter_sized (tr : Tree) (ts : List Token) :
+    gatherAll C g cap tr ts = gatherAll C g cap tr (ts.filter (fun t => t.sized g)) := by
+  induction ts generalizing tr with
+  | nil => rfl
+  | cons t ts ih =>
+    cases hs : t.sized g with
+    | false =>
+      simp only [gatherAll, List.foldl_cons, List.filter_cons, hs, Bool.false_eq_true, ↓reduceIte]
+      rw [gather_unsized tr t hs]
+      exact ih tr
+    | true =>
+      simp only [gatherAll, List.foldl_cons, List.filter_cons, hs, ↓reduceIte]
+      exact ih _
+
+theorem core_of_signed_sized {a b : Token} (ha : a.sized g = true) (hb : b.sized g = true)
+    (h : a.signed = b.signed) : a.core = b.core := by
+  simp only [Token.sized, Bool.and_eq_true, beq_iff_eq] at ha hb
+  unfold Token.signed at h
+  have h1 := List.append_inj h (by simp [ha.1, ha.2, hb.1, hb.2])
+  have h2 := List.append_inj h1.1 (by rw [ha.1, hb.1])
+  simp [Token.core, h2.1, h2.2, h1.2]
+
+/-- the duplicate branch changes a stored token only by giving it content that hashes to its pointer -/
+theorem gather_shadow_content (tr : Tree) (t : Token) (hk : gatherKind C g tr t = .shadow) :
+    (gather C g cap tr t).unc = tr.unc ∧
+    ∀ e ∈ (gather C g cap tr t).els, e ∈ tr.els ∨ e.contentOk C := by
+  unfold gatherKind at hk
+  unfold gather
+  rw [drain]
+  by_cases hv : (!t.ok C g) = true
+  · simp [hv] at hk
+  · by_cases ho : (t.prev != g && !hasId C tr.els t.prev) = true
+    · simp [hv, ho] at hk
+    · by_cases hd : hasId C tr.els (t.id C) = true
+      · rw [if_neg hv, if_neg ho, if_pos hd, drain_nil]
+        refine ⟨rfl, fun e he => ?_⟩
+        rw [absorb_eq_map] at he
+        obtain ⟨e0, h0, rfl⟩ := List.mem_map.mp he
+        rcases absorbOne_same_or_bound (C := C) t e0 with h | h
+        · left; rw [h]; exact h0
+        · exact Or.inr h
+      · simp [hv, ho, hd] at hk
+
+/-- today's struct.error quirk of unserialize_public (result `none`), as the model mirrors it: exactly when the length
+    is not a whole number of chunks.  Not an obligation: a repair that returns False instead is not a violation. -/
+theorem unserialize_error_iff (tr : Tree) (s : Bytes) :
+    (unserializePublic C g cap tr s).2 = none ↔ s.length % (Gen.chunkBase + C.sigLen) ≠ 0 := by
+  unfold unserializePublic
+  simp only []
+  rw [parse_ok_iff]
+  cases h : (s.length % (Gen.chunkBase + C.sigLen) == 0) <;> simp_all
+
 
 end Ipv8.C16
